@@ -276,7 +276,8 @@ def run(ctx):
                "future_deque::waker_meta::drop_raw_waker"}
     by = {}
     for bd, bb, t in rel_sites:
-        by.setdefault(bd.key, []).append((bd, bb, t))
+        # a closure handed to an iterator adaptor belongs to the function it is written in
+        by.setdefault(bd.key.split("::{closure")[0], []).append((bd, bb, t))
     for k, sites in sorted(by.items()):
         bd = sites[0][0]
         ok = k in allowed and len(sites) == 1
@@ -315,3 +316,10 @@ def run(ctx):
             ctx.ob("R6.release-before-user-drop", short(k), bool(owners) and not bad, bd.loc(t["span"]),
                    f"user-code points between moving the slot out and release_ref: {bad or 'none'}")
     ctx.ob("R5.metadata-balance", "all-destruction-sites-covered", set(by) == allowed, "", f"functions releasing metadata: {sorted(short(k) for k in by)}")
+    # Drop releases the metadata of EVERY remaining slot (loop or adaptor form, no positional cut)
+    from ..analysis import element_ops
+    dr = [b for b in prog.bodies if b.key == "<future_deque::future_deque_core::FutureDequeCore<T> as std::ops::Drop>::drop"]
+    if dr:
+        eo = element_ops(prog, dr[0], lambda t: callee_key(t["callee"]).endswith("waker_meta::release_ref"))
+        ok = bool(eo) and all(e["ok"] for e in eo)
+        ctx.ob("R5.metadata-balance", "drop-visits-every-slot", ok, dr[0].loc(), f"release_ref in Drop: {[e['form'] + ': ' + e['detail'] for e in eo]}")
